@@ -62,7 +62,7 @@ type libHashes struct {
 
 // libHash runs the library on one JSON text: Unmarshal into TypedData,
 // EncodeTypedDataV4 (twice on the same payload), HashStruct for message and domain.
-func libHash(text []byte) (h libHashes, td *eip712.TypedData, vs []evid.Violation) {
+func libHash(text []byte, full bool) (h libHashes, td *eip712.TypedData, vs []evid.Violation) {
 	ctx := context.Background()
 	td = new(eip712.TypedData)
 	if err := json.Unmarshal(text, td); err != nil {
@@ -73,6 +73,9 @@ func libHash(text []byte) (h libHashes, td *eip712.TypedData, vs []evid.Violatio
 		return h, nil, []evid.Violation{evid.V("accept-well-formed", "EncodeTypedDataV4 rejected a well-formed document: %v", err)}
 	}
 	h.digest = d
+	if !full {
+		return h, td, nil
+	}
 	d2, err := eip712.EncodeTypedDataV4(ctx, td)
 	if err != nil || !bytes.Equal(d, d2) {
 		vs = append(vs, evid.V("digest-deterministic", "second EncodeTypedDataV4 on the same payload: %x / %v, first %x", []byte(d2), err, []byte(d)))
@@ -109,7 +112,7 @@ func judgeDoc(c DocCase) (vs []evid.Violation) {
 			}
 		}
 		for e := 0; e < evalsPerText; e++ {
-			h, _, hv := libHash(text)
+			h, _, hv := libHash(text, e == 0)
 			vs = append(vs, hv...)
 			if h.digest == nil {
 				return vs
@@ -132,8 +135,9 @@ func judgeDoc(c DocCase) (vs []evid.Violation) {
 			}
 		}
 	}
-	// signing through a KeyPair, on the base text and on the last variant
-	for _, i := range []int{0, len(c.Docs) - 1} {
+	// signing through a KeyPair (one text per case: the curve arithmetic of the
+	// independent recovery dominates the cost), here the last variant
+	for _, i := range []int{len(c.Docs) - 1} {
 		td := new(eip712.TypedData)
 		if err := json.Unmarshal(c.Docs[i], td); err != nil {
 			return append(vs, evid.V("harness", "unmarshal: %v", err))
@@ -148,9 +152,6 @@ func judgeDoc(c DocCase) (vs []evid.Violation) {
 			return append(vs, evid.V("sign", "SignTypedDataV4 failed: %v", err))
 		}
 		vs = append(vs, checkSignature(res, want.Digest, kb)...)
-		if i == len(c.Docs)-1 {
-			break
-		}
 	}
 	return vs
 }
@@ -187,9 +188,10 @@ func checkSignature(res *ethsigner.EIP712Result, digest []byte, key []byte) (vs 
 	if !ok || got != want {
 		vs = append(vs, evid.V("sign-recovers", "signature over the digest recovers to %x (ok=%v), signer is %x", got, ok, want))
 	}
-	x, y := secp.PubKey(d)
-	if !secp.Verify(digest, r, s, x, y) {
-		vs = append(vs, evid.V("sign-verifies", "signature does not verify for the digest under the signer's public key"))
+	// (recovering the signer's address from (r, s, v) over the digest implies that the
+	// signature verifies under the signer's public key; no separate Verify needed)
+	if r.Sign() == 0 || s.Sign() == 0 || r.Cmp(secp.N) >= 0 || s.Cmp(secp.N) >= 0 {
+		vs = append(vs, evid.V("sign-range", "r or s outside [1, n-1]"))
 	}
 	return vs
 }
@@ -516,11 +518,16 @@ func TestCheck(t *testing.T) {
 	kABI := evid.NewKind(rec, "abi", judgeABI)
 	rec.Corpus(t)
 
+	atomTypes := map[string]bool{}
 	rec.Rapid(t, "doc", rec.N(1500, 15000), func(rt *rapid.T) {
 		c, st, vcl := genDocCase(rt)
 		cl, nt := docClasses(st)
+		for a := range st.AtomTypes {
+			atomTypes[a] = true
+		}
 		kDoc.Check(rt, c, nt, append(cl, vcl...)...)
 	})
+	rec.Extra("atomic_types_with_message_values", fmt.Sprintf("%d of 100 (shard %d)", len(atomTypes), rec.Shard))
 
 	rec.Rapid(t, "abi", rec.N(500, 4000), func(rt *rapid.T) {
 		a := tdgen.GenABI(rt, 5)
